@@ -296,10 +296,188 @@ pub fn crafted_g1(pair: &(Vec<u8>, Vec<u8>)) -> Option<G1> {
     Some(G1::new(a, y * z3, z))
 }
 
+/// G1 representatives crafted from the TLC operand-pair families (quotient patterns, V-boundary pairs): their NORMALISATION performs
+/// the designated Montgomery product (see crafted_g1); `budget` of them, the starting offset rotating with the seed
+pub fn crafted_points(poolq: &Pool, seed: u64, budget: usize) -> Vec<G1> {
+    let all: Vec<&(Vec<u8>, Vec<u8>)> = poolq.qpairs.iter().chain(poolq.vpairs.iter()).collect();
+    let mut out = Vec::new();
+    if all.is_empty() { return out; }
+    // the high-limb pairs are few: all of them (up to half of the budget), either operand order
+    for pr in poolq.hpairs.iter() {
+        if out.len() >= budget / 2 { break; }
+        if let Some(p) = crafted_g1(pr).or_else(|| crafted_g1(&(pr.1.clone(), pr.0.clone()))) { out.push(p); }
+    }
+    let stride = 7usize;
+    let mut i = (seed as usize * 13) % all.len();
+    for _ in 0..all.len() {
+        if out.len() >= budget { break; }
+        if let Some(p) = crafted_g1(all[i]) { out.push(p); }
+        i = (i + stride) % all.len();
+    }
+    out
+}
+/// values v with a small multiple near a multiple of q in the MONTGOMERY domain: m = -s / c (mod q), c in {2, 3, 4, 8}, s small or a
+/// limb power - the repeated additions 2v, 3v, 4v, 8v of the group formulas then end just below / on / above q
+pub fn mult_boundary() -> Vec<Fq> {
+    let mut v33 = [0u8; 33];
+    v33[0] = 1;
+    let rinv = Fq::from_slice(&v33).unwrap().inverse().unwrap();
+    let small = |k: u64, sh: usize| -> Fq { let mut b = [0u8; 32]; b[24 - 8 * sh..32 - 8 * sh].copy_from_slice(&k.to_be_bytes()); Fq::from_slice(&b).unwrap() };
+    let mut out = Vec::new();
+    for c in [2u64, 3, 4, 8] {
+        let ci = small(c, 0).inverse().unwrap();
+        for s in [small(1, 0), small(2, 0), small(5, 0), small(0x1234570, 0), small(1, 1), small(1, 2), small(u64::MAX, 0), small(u64::MAX, 1)] {
+            out.push(-(s * ci) * rinv);
+            out.push((s * ci) * rinv);
+        }
+    }
+    out
+}
+/// the designated single-operand families as field elements: zero-digit / high-limb squares, residues just below q, small-multiple boundary
+pub fn pattern_values(poolq: &Pool) -> Vec<Fq> {
+    let mut v: Vec<Fq> = poolq.vsq.iter().chain(poolq.hi.iter()).filter_map(|b| Fq::from_slice(b)).collect();
+    v.extend(mult_boundary());
+    v
+}
+/// affine G1 points one of whose COORDINATES is a pattern value (x = v with y = sqrt(x^3 + 5); y = v with x = cbrt(y^2 - 5)):
+/// doubling squares x and y, triples x^2, doubles y ... directly on these values
+pub fn coord_points(poolq: &Pool, seed: u64, budget: usize) -> Vec<G1> {
+    let vals = pattern_values(poolq);
+    let mut out = Vec::new();
+    if vals.is_empty() { return out; }
+    let mut i = (seed as usize * 19) % vals.len();
+    for k in 0..2 * vals.len() {
+        if out.len() >= budget { break; }
+        let v = vals[i];
+        if k % 2 == 0 {
+            if let Some(y) = (v * v * v + G1::b()).sqrt() { out.push(G1::new(v, if k % 4 == 0 { y } else { -y }, Fq::one())); }
+        } else if let Some(x) = fq_cbrt(v * v - G1::b()) {
+            out.push(G1::new(x, v, Fq::one()));
+        }
+        if k % 2 == 1 { i = (i + 7) % vals.len(); }
+    }
+    out
+}
+/// pairs (P, P') of representatives of the SAME point such that comparing or adding them multiplies a TLC-designated operand pair
+/// (a, b): P = (a, y, 1) affine with x = a, P' = (a b, y b^(3/2), sqrt b): x_P * z'^2 = a * b
+pub fn eq_crafted(poolq: &Pool, seed: u64, budget: usize) -> Vec<(G1, G1)> {
+    let all: Vec<&(Vec<u8>, Vec<u8>)> = poolq.qpairs.iter().chain(poolq.vpairs.iter()).collect();
+    let mut out = Vec::new();
+    if all.is_empty() { return out; }
+    let hp: Vec<&(Vec<u8>, Vec<u8>)> = poolq.hpairs.iter().collect();
+    let mut i = (seed as usize * 23) % all.len();
+    for k in 0..(all.len() + hp.len()) {
+        if out.len() >= budget { break; }
+        // the high-limb pairs first (up to half of the budget), then the rotating sample
+        let pr = if k < hp.len() { if out.len() >= budget / 2 { continue; } hp[k] } else { all[i] };
+        for (a, bq) in [(&pr.0, &pr.1), (&pr.1, &pr.0)] {
+            let (a, bq) = (Fq::from_slice(a).unwrap(), Fq::from_slice(bq).unwrap());
+            if let (Some(y), Some(l)) = ((a * a * a + G1::b()).sqrt(), bq.sqrt()) {
+                if !l.is_zero() {
+                    let p = G1::new(a, y, Fq::one());
+                    out.push((p, g1_scale(p, l)));
+                    break;
+                }
+            }
+        }
+        if k >= hp.len() { i = (i + 5) % all.len(); }
+    }
+    out
+}
+/// affine G1 points one of whose coordinates has a pattern value as its SQUARE (x = sqrt v or y = sqrt v): doubling then triples,
+/// doubles and quadruples exactly v
+pub fn sq_coord_points(poolq: &Pool, seed: u64, budget: usize) -> Vec<G1> {
+    let mut vals = mult_boundary();
+    vals.extend(poolq.hi.iter().filter_map(|b| Fq::from_slice(b)));
+    let mut out = Vec::new();
+    let n = vals.len();
+    for k in 0..2 * n {
+        if out.len() >= budget { break; }
+        let v = vals[(k / 2 + seed as usize * 3) % n];
+        if let Some(s) = v.sqrt() {
+            if k % 2 == 0 {
+                if let Some(y) = (s * s * s + G1::b()).sqrt() { out.push(G1::new(s, y, Fq::one())); }
+            } else if let Some(x) = fq_cbrt(v - G1::b()) {
+                out.push(G1::new(x, s, Fq::one()));
+            }
+        }
+    }
+    out
+}
+/// process-wide list of pattern z values (filled once by a suite that has the pool at hand; empty otherwise)
+pub static PATTERN_ZS: std::sync::OnceLock<Vec<Fq>> = std::sync::OnceLock::new();
+pub fn pattern_z<R: Rng>(rng: &mut R) -> Option<Fq> {
+    PATTERN_ZS.get().and_then(|v| if v.is_empty() { None } else { Some(v[rng.gen_range(0..v.len())]) })
+}
+/// z values whose INVERSE has a designated Montgomery pattern: 1/v for v in the zero-digit-square family (to_affine squares 1/z) and
+/// for pool values with a zero Montgomery limb
+pub fn inv_pattern_zs(poolq: &Pool, seed: u64, budget: usize) -> Vec<Fq> {
+    let mut v33 = [0u8; 33];
+    v33[0] = 1;
+    let rr = Fq::from_slice(&v33).unwrap();
+    let zero_limb = |v: &Fq| -> bool { (*v * rr).to_slice().chunks(8).any(|c| c.iter().all(|x| *x == 0)) };
+    // two thirds of the budget from the zero-digit-square family, one third from the zero-limb pool values
+    let fam1: Vec<Fq> = poolq.sqhigh.iter().chain(poolq.vsq.iter()).filter_map(|b| Fq::from_slice(b)).collect();
+    let fam2: Vec<Fq> = poolq.vals.iter().filter_map(|b| Fq::from_slice(b)).filter(|v| zero_limb(v)).collect();
+    let mut out = Vec::new();
+    // values whose SQUARE is a pattern (1/z)^2 = v, z^2 = v: v just below q, v with a small multiple on a multiple of q
+    {
+        let mut vs = mult_boundary();
+        vs.extend(poolq.hi.iter().filter_map(|b| Fq::from_slice(b)));
+        let n = vs.len();
+        let mut k = 0;
+        for j in 0..n {
+            if k >= budget / 6 { break; }
+            if let Some(sq) = vs[(j + seed as usize * 5) % n].sqrt() {
+                if let Some(inv) = sq.inverse() { out.push(if k % 3 == 2 { sq } else { inv }); k += 1; }
+            }
+        }
+    }
+    for (cands, share) in [(&fam1, budget - budget / 3), (&fam2, budget / 3)] {
+        if cands.is_empty() { continue; }
+        let mut i = (seed as usize * 17) % cands.len();
+        let mut n = 0;
+        for _ in 0..cands.len() {
+            if n >= share { break; }
+            if let Some(z) = cands[i].inverse() { out.push(if n % 4 == 3 { cands[i] } else { z }); n += 1; }   // every fourth: z = v itself (z^2 in add / ==)
+            i = (i + 11) % cands.len();
+        }
+    }
+    out
+}
+/// canonical 256-bit patterns whose four 64-bit limbs are drawn from {0, 1, 2^63, 2^64-1, m_i, m_i - 1, m_i + 1} (m the modulus):
+/// scalars and exponents are WALKED in canonical form, so this is the boundary family of every bit- or limb-wise scalar loop
+pub fn canon_patterns(modulus: &[u8]) -> Vec<[u8; 32]> {
+    let mut sets: Vec<Vec<u64>> = Vec::new();
+    for i in 0..4 {
+        let mut w = [0u8; 8];
+        w.copy_from_slice(&modulus[(3 - i) * 8..(4 - i) * 8]);       // limb i, little-endian limb order
+        let m = u64::from_be_bytes(w);
+        let mut s = vec![0u64, 1, 1 << 63, u64::MAX, m, m.wrapping_sub(1), m.wrapping_add(1)];
+        s.sort();
+        s.dedup();
+        sets.push(s);
+    }
+    let mut out = Vec::new();
+    for &l3 in &sets[3] { for &l2 in &sets[2] { for &l1 in &sets[1] { for &l0 in &sets[0] {
+        let mut v = [0u8; 32];
+        v[0..8].copy_from_slice(&l3.to_be_bytes());
+        v[8..16].copy_from_slice(&l2.to_be_bytes());
+        v[16..24].copy_from_slice(&l1.to_be_bytes());
+        v[24..32].copy_from_slice(&l0.to_be_bytes());
+        if v[..] < modulus[..] { out.push(v); }
+    } } } }
+    out
+}
+pub fn r_modulus() -> Vec<u8> {
+    let mut v = (-Fr::one()).to_slice().to_vec();
+    for i in (0..32).rev() { v[i] = v[i].wrapping_add(1); if v[i] != 0 { break; } }
+    v
+}
 pub const TAGS: [&str; 5] = ["A", "J", "S", "Z0", "ZN"];
 /// number of rescaling classes of the "S" representatives (see g1_rep / g2_rep); `*_rep_class` forces one of them
-pub const G1_NSEL: usize = 9;
-pub const G2_NSEL: usize = 21;
+pub const G1_NSEL: usize = 10;
+pub const G2_NSEL: usize = 22;
 thread_local! {
     static G1_SEL: std::cell::Cell<Option<usize>> = const { std::cell::Cell::new(None) };
     static G2_SEL: std::cell::Cell<Option<usize>> = const { std::cell::Cell::new(None) };
@@ -357,6 +535,7 @@ pub fn g1_rep<R: Rng>(rng: &mut R, p: G1, tag: &str) -> G1 {
                 0 => Fq::one() + Fq::one(),
                 1 => -Fq::one(),
                 8 => unity_root(rng),                       // l^3 = +-1: the raw y (up to sign) is unchanged, z^6 = 1
+                9 => mont_small(1),                         // exactly the element whose Montgomery limbs are [1, 0, 0, 0]
                 2 => mont_small(rng.gen_range(1..4)),       // z whose Montgomery limbs are a tiny integer
                 _ => rand_fq_nonzero(rng),
             };
@@ -436,6 +615,7 @@ pub fn g2_rep<R: Rng>(rng: &mut R, p: G2, tag: &str) -> G2 {
             }
             let l = match sel {
                 20 => Fq2::new(unity_root(rng), Fq::zero()),
+                21 => Fq2::new(mont_small(1), Fq::zero()),
                 11 => Fq2::new(mont_small(rng.gen_range(1..4)), Fq::zero()),
                 12 => Fq2::new(Fq::zero(), mont_small(1)),
                 0 => Fq2::one() + Fq2::one(),
